@@ -7,18 +7,19 @@ or MUT_TIER) and optionally ALL checks (--all), record the verdicts in seeded/<n
 import json, os, subprocess, sys, shutil, glob
 from concurrent.futures import ThreadPoolExecutor
 
+VROOT = os.path.dirname(os.path.dirname(os.path.abspath(__file__)))
 args = sys.argv[1:]
 run_all = '--all' in args
-names = [a for a in args if not a.startswith('--')] or sorted(os.listdir('/verif/seeded'))
-ALL = sorted(os.path.basename(p)[:-3].upper() for p in glob.glob('/verif/vf/checks/c*.py'))
+names = [a for a in args if not a.startswith('--')] or sorted(os.listdir(f'{VROOT}/seeded'))
+ALL = sorted(os.path.basename(p)[:-3].upper() for p in glob.glob(f'{VROOT}/vf/checks/c*.py'))
 head = subprocess.run(['git', '-C', '/repo', 'rev-parse', '--short', 'HEAD'], capture_output=True, text=True).stdout.strip()
 
 
 def one(name):
-    d = f'/verif/seeded/{name}'
+    d = f'{VROOT}/seeded/{name}'
     meta = json.load(open(f'{d}/meta.json'))
     prop = meta['property']
-    wt = f'/tmp/sweep-{name}'
+    wt = f'/tmp/sweep-{os.getpid()}-{name}'
     subprocess.run(['git', '-C', '/repo', 'worktree', 'remove', '--force', wt], capture_output=True)
     subprocess.run(['git', '-C', '/repo', 'worktree', 'add', '-q', '--detach', wt, 'HEAD'], check=True)
     out = {'repo_head': head}
@@ -28,10 +29,10 @@ def one(name):
             out['applies'] = False
             return name, prop, out
         out['applies'] = True
-        ev = f'/tmp/sweep-ev-{name}'
+        ev = f'/tmp/sweep-ev-{os.getpid()}-{name}'
         for c in (ALL if run_all else [prop]):
             env = dict(os.environ, VERIF_REPO=wt, PYTHONHASHSEED='0', VERIF_EVIDENCE_DIR=ev)
-            r = subprocess.run(['/venv/bin/python', '-m', 'vf.run', c, '--tier', os.environ.get('MUT_TIER', 'quick')], cwd='/verif',
+            r = subprocess.run(['/venv/bin/python', '-m', 'vf.run', c, '--tier', os.environ.get('MUT_TIER', 'quick')], cwd=VROOT,
                                env=env, capture_output=True, text=True)
             sig = [l for l in r.stdout.splitlines() if ': ' in l and 'VIOLATION' not in l and 'KNOWN-FINDING' not in l and not l.startswith(c + ' ')]
             out[c] = {'verdict': {0: 'missed', 1: 'CAUGHT'}.get(r.returncode, 'harness-error'), 'first': [s[:240] for s in sig[:2]]}
